@@ -1020,6 +1020,29 @@ class C10(ServerProp):
             h.drain(late)
             h.finish()
             out.append(self.mk(h, 0, {'kind': 'unwritable-client-pipelined', 'late': late}))
+        # ten clients each send a well-formed request and a malformed one in one segment, then leave: every slot is
+        # regained (requests dropped with the 400 are not owed an answer), a newcomer is served
+        for _ in range(6 if tier == 'quick' else 150):
+            h = Hist(rng)
+            cs = [h.connect() for _ in range(10)]
+            h.ops.append([11, 14])
+            for c in cs:
+                bad = rng.choice([b'nonsense\r\n\r\n', b'GET  /x HTTP/1.1\r\n\r\n', b'PUT /x HTTP/1.1\r\nContent-Length: x\r\n\r\n'])
+                h.ops.append([1, c, b'GET /c%d/r0 HTTP/1.1\r\n\r\n' % c + bad])
+            h.ops.append([11, 14])
+            for c in cs:
+                h.ops.append([2, c])
+                h.alive.remove(c)
+            h.ops.append([11, 14])
+            h.ops.append([11, 4])
+            late = h.connect()
+            h.ops.append([11, 4])
+            h.request(late, poll_between=False)
+            h.ops.append([11, 6])
+            h.ops.append([12, 0])
+            h.ops.append([11, 6])
+            h.ops.append([5, late])
+            out.append(self.mk(h, 0, {'kind': 'full-of-clients-that-sent-garbage', 'late': late}))
         # a response larger than the socket buffer is half written to a slow reader while the table fills up, the other
         # nine clients leave and a newcomer arrives: the newcomer is served, the slow reader still gets everything
         # (outside the executable kernel model, decided on the implementation alone)
